@@ -1,4 +1,5 @@
-import LoguruModel.Catch.Model
+import LoguruModel.Catch.Tower
+import LoguruModel.Catch.Threads
 import LoguruModel.Driver
 open Catch Py.Gen
 
@@ -16,6 +17,12 @@ open Catch Py.Gen
           action = y<v>_<next> | Y_<next> (echo) | r<v> | e<cls>.<id> | x (re-raise the injected one)
     ops   `-` or `,`-joined  s<v> | t<cls>.<id> | c
     answer:  W <results> T <events> U <results>
+
+    thr <minlevel> <threads> <schedule>     (round 5: the guard flag across threads, Catch/Threads.lean)
+    threads  `;`-joined  M:X:R:L:O:<cls>.<id>  (O = n | k | r<cls>.<id>); thread i runs one `__exit__` of a
+             decorator for its exception;  schedule `,`-joined thread indices (one atomic step each) or `-`
+    answer:  R <result per thread: s (suppress) | p (propagate) | e<cls>.<id> | ? (not finished)> T <tid>:<event>,…
+    The flag storage is the GENERATED `Gen.flagStore`.
 -/
 
 def bit (bits : String) (i : Nat) : Bool := bits.toList.getD i '0' == '1'
@@ -171,14 +178,6 @@ def showEvent : Event → String
   | .log l e d => s!"L{l}.{showExc e}.{d}" | .onerror e => "O" ++ showExc e | .probe r => "P" ++ showCall r
 def joinOr (l : List String) : String := if l.isEmpty then "-" else ",".intercalate l
 
-structure AnyObj where
-  τ : Type
-  obj : Obj G τ
-  init : τ
-
-def wrapAny (k : Kind) (env : Env) (o : AnyObj) (cfg : Cfg) : AnyObj :=
-  ⟨GState (WState o.τ), genObj k (wrapAuto (Catch.exit env) cfg o.obj), .unstarted (.fresh o.init)⟩
-
 def g0 : G := ⟨false, []⟩
 
 def toAOp : Op → AOp
@@ -187,8 +186,44 @@ def toAOp : Op → AOp
 def answer (w : List String) (g : G) (u : List String) : String :=
   s!"W {joinOr w} T {joinOr (g.trace.map showEvent)} U {joinOr u}"
 
+def parseThread (s : String) : Option Activation :=
+  match s.splitOn ":" with
+  | [m, x, r, l, o, e] =>
+    let oe : Option (Option (Option Exc)) :=
+      if o == "n" then some none
+      else if o == "k" then some (some none)
+      else if o.startsWith "r" then (parseExc (o.drop 1).toString).map (fun x => some (some x))
+      else none
+    match l.toNat?, oe, parseExc e with
+    | some l, some oe, some e =>
+      some { cfg := { isMatch := fun e => bit m e.cls, excluded := fun e => bit x e.cls, reraise := r == "1",
+                      level := l, onerror := oe },
+             exc := e, depth := decoratorDepth, pc := .tests }
+    | _, _, _ => none
+  | _ => none
+
+def showPc : Option Activation → String
+  | some a => match a.pc with
+    | .done .suppress => "s"
+    | .done .propagate => "p"
+    | .done (.raise x) => "e" ++ showExc x
+    | _ => "?"
+  | none => "?"
+
+def stepThreads (ml threads sched : String) : String :=
+  let sch : Option (List Nat) := if sched == "-" then some [] else (sched.splitOn ",").mapM String.toNat?
+  match ml.toNat?, (threads.splitOn ";").mapM parseThread, sch with
+  | some ml, some acts, some sch =>
+    let w0 : TWorld := { flags := fun _ => false, acts := fun t => acts[t]?, trace := [] }
+    let w := grun Gen.flagStore ml (fun _ => none) sch w0
+    let rs := (List.range acts.length).map (fun t => showPc (w.acts t))
+    let tr := w.trace.map (fun p => s!"{p.1}:{showEvent p.2}")
+    s!"R {joinOr rs} T {joinOr tr}"
+  | _, _, _ => "bad-op"
+
 def step (line : String) : String :=
   match line.splitOn " " with
+  | ["thr", ml, threads, sched] => stepThreads ml threads sched
   | [kind, cfgs, env, auto, ops] =>
     match parseEnv env with
     | none => "bad-op"
@@ -210,20 +245,18 @@ def step (line : String) : String :=
         | (r, g), (u, _) => answer [showCall r] g [showCall u]
       else if kind == "gen" || kind == "coro" then
         let k := if kind == "gen" then Kind.generator else Kind.coroutine
-        let base : AnyObj := ⟨GState Nat, genObj k a, .unstarted 0⟩
-        let w := cfgs.foldl (wrapAny k env) base
-        match run w.obj w.init ops g0, run base.obj base.init ops g0 with
+        -- the stack of decorators is the tower of Catch/Tower.lean (configurations outermost first)
+        let outerFirst := cfgs.reverse
+        match run (towerObj k env a outerFirst) (embN outerFirst (.unstarted 0)) ops g0,
+              run (genObj k a) (.unstarted 0) ops g0 with
         | (rs, _, g), (us, _, _) => answer (rs.map showRes) g (us.map showRes)
       else if kind == "agen" then
-        match cfgs with
-        | cfg :: _ =>
-          -- decorators stacked on top of the first one see a plain function (its `catch_wrapper`
-          -- is not an async generator function): they are inert
-          let aops := ops.map toAOp
-          match arun (agWrapStep (Catch.exit env) cfg (agenStep a)) (.unstarted 0) aops g0,
-                arun (agenStep a) (.unstarted 0) aops g0 with
-          | (rs, _, g), (us, _, _) => answer (rs.map showARes) g (us.map showARes)
-        | [] => "bad-op"
+        -- stacked decorators: AsyncGenCatchWrapper around AsyncGenCatchWrapper (since repo commit 2c59ddf the
+        -- marked wrapper of an async generator function takes the async-generator branch again)
+        let aops := ops.map toAOp
+        match arun (agTower env (agenStep a) cfgs.reverse) (.unstarted 0) aops g0,
+              arun (agenStep a) (.unstarted 0) aops g0 with
+        | (rs, _, g), (us, _, _) => answer (rs.map showARes) g (us.map showARes)
       else "bad-op"
     | _, _, _ => "bad-op"
   | _ => "bad-op"
